@@ -58,7 +58,7 @@ def crash_signature(prop, crash):
 
 
 LADDER_STREAMS = ["ladder-list", "ladder-dict", "ladder-grid", "ladder-list-in-dict", "ladder-gridmeta", "ladder-xstr-paren",
-                  "ladder-json-list", "ladder-json-dict", "ladder-json-grid", "ladder-paren", "ladder-paren-and", "ladder-not-paren"]
+                  "ladder-json-list", "ladder-json-dict", "ladder-json-grid", "ladder-paren", "ladder-paren-and", "ladder-not-paren", "ladder-paren-sibling", "ladder-paren-sibling2"]
 
 WELLFORMED = ("well-formed values only (C01 clause): identifier tag/column names, Ref/Symbol bodies over the id alphabet, "
               "Symbols start with a lower-case letter, XStr types [A-Z][A-Za-z0-9_]* except the literal 'C', Uris without "
@@ -68,7 +68,7 @@ WELLFORMED = ("well-formed values only (C01 clause): identifier tag/column names
 PROPS = {
     "C01": {
         "quick": [phase(16, 4.0, 120)],
-        "thorough": [phase(16, 1.0, 1500)],
+        "thorough": [phase(16, 6.0, 1500)],
         "rule": ("cases = model values from the stratified generator (stream 'scalar': every scalar kind in turn; stream 'value': "
                  "lists/dicts/grids nested to depth 4 (quick) / 6 (thorough)); each is encoded with to_zinc_string, decoded with "
                  "zinc::decode::from_str and compared component-wise in the harness model (f64 by bits, Ref dis, zone name, "
@@ -83,7 +83,7 @@ PROPS = {
     },
     "C02": {
         "quick": [phase(16, 4.0, 120)],
-        "thorough": [phase(16, 1.0, 1500)],
+        "thorough": [phase(16, 6.0, 1500)],
         "rule": ("cases = the C01 generator's model values; each is serialised through serde_json::to_string / to_vec / to_value and "
                  "deserialised through from_str / from_slice / from_value (all 9 combinations, round robin), and scalars and top-level "
                  "collections additionally through their own typed Serialize+Deserialize impl; compared component-wise in the harness "
@@ -99,7 +99,7 @@ PROPS = {
     },
     "C10": {
         "quick": [phase(16, 4.0, 120)],
-        "thorough": [phase(16, 1.0, 1200)],
+        "thorough": [phase(16, 6.0, 1200)],
         "crash_is_violation": True,
         "rule": ("cases = Values built directly through public fields/constructors with every String field arbitrary (empty, NUL, "
                  "non-ASCII first char, controls), NaN/INF with units, the default unit, out-of-range dates, leap-second times, "
@@ -114,7 +114,7 @@ PROPS = {
     },
     "C12": {
         "quick": [phase(16, 8.0, 60)],
-        "thorough": [phase(16, 12.0, 1200)],
+        "thorough": [phase(16, 40.0, 1200)],
         "rule": ("cases = (a) a fixed pool of ~110 near-colliding Values (+0/-0, same magnitude with different/absent/default unit, Refs "
                  "differing only in dis, dicts differing in one key or value, list prefixes, equal instants in 4 zones, the same payload "
                  "under different kinds, grids differing in meta/column meta/ver) and typed pools (Number, Coord, Ref, Dict, Grid, Column, "
@@ -131,7 +131,7 @@ PROPS = {
     },
     "C19": {
         "quick": [phase(16, 4.0, 120)],
-        "thorough": [phase(16, 1.0, 1200)],
+        "thorough": [phase(16, 6.0, 1200)],
         "rule": ("cases = generated values (every scalar kind in turn + nested values): exactly one of the 18 is_* predicates is true and it "
                  "is the model's kind; HaystackKind::from(&Value); every TryFrom<&Value> (17 target types) and every HaystackDict getter "
                  "(14) succeeds iff the kind matches and returns the stored payload (strict model equality), absent keys give None; "
@@ -144,7 +144,7 @@ PROPS = {
     },
     "C04": {
         "quick": [phase(16, 4.0, 120)],
-        "thorough": [phase(16, 1.0, 1500)],
+        "thorough": [phase(16, 6.0, 1500)],
         "rule": ("cases = the C01 generator's model values; for each, (A) the spec-derived reference writer (harness/src/refzinc.rs) produces a "
                  "random legal spelling (space after commas, trailing list comma, space- or comma-separated dict tags, k vs k:M, exponent "
                  "/ '_' / trailing-.0 number spellings, \\uXXXX (either hex case) and \\b \\f escapes, LF vs CRLF, 'Z' vs 'Z UTC', numeric "
@@ -156,7 +156,7 @@ PROPS = {
                         "in a one-column grid a missing only-cell and N are the same denotation (counted as don't-care)",
                         "'$' in strings is always written escaped by the reference writer"],
         "require_strata": {"both": ["spelling:space-after-comma", "spelling:list-trailing-comma", "spelling:dict-comma-separator",
-                                    "spelling:marker-spelled-M", "spelling:exponent", "spelling:digit-underscore", "spelling:integer-dot-zero",
+                                    "spelling:marker-spelled-M", "spelling:exponent", "spelling:digit-underscore", "spelling:exponent-digit-underscore", "spelling:mantissa-underscore", "spelling:integer-dot-zero",
                                     "spelling:esc-uXXXX", "spelling:esc-b", "spelling:esc-f", "spelling:crlf", "spelling:z-utc",
                                     "spelling:zero-offset-numeric", "spelling:fraction-trailing-zero", "spelling:nested-grid-no-newline",
                                     "spelling:trailing-blank-line", "spelling:uri-esc-uXXXX", "grid:meta", "grid:colmeta"]},
@@ -164,7 +164,7 @@ PROPS = {
     },
     "C03": {
         "quick": [phase(16, 3.0, 120)],
-        "thorough": [phase(16, 1.0, 1500),
+        "thorough": [phase(16, 3.0, 1500),
                      phase(1, 1.0, 300, flavour="release", streams=LADDER_STREAMS),
                      phase(1, 1.0, 300, flavour="dev", streams=LADDER_STREAMS)],
         "crash_is_violation": True,
@@ -191,7 +191,7 @@ PROPS = {
     },
     "C07": {
         "quick": [phase(16, 4.0, 120)],
-        "thorough": [phase(16, 1.0, 1500)],
+        "thorough": [phase(16, 6.0, 1500)],
         "rule": ("cases = (filter, record) pairs. (a) term matrix, complete: tag/not-tag/every comparison operator x every literal of a "
                  "25-literal pool, on every state of tag 'a' (missing, Null, each of 31 near-colliding values, empty list, list holding the "
                  "value, empty dict) = one cell each; (b) random and/or/paren filters (paths of 1-3 segments through nested dicts) on random "
@@ -208,7 +208,7 @@ PROPS = {
     },
     "C08": {
         "quick": [phase(16, 4.0, 120)],
-        "thorough": [phase(16, 1.0, 1500)],
+        "thorough": [phase(16, 6.0, 1500)],
         "rule": ("cases = filter trees: (a) the bounded space of all trees 't', 't and t', 't or t', 't and t or t', 't or t and t', "
                  "'(t or t) and t' over a set of 46 small terms (~2.96e5 trees; enumerated completely across shards in thorough, strided "
                  "sample in quick); (b) random trees to paren depth 3 with every term kind and every literal kind the syntax admits "
@@ -225,7 +225,7 @@ PROPS = {
     },
     "C09": {
         "quick": [phase(16, 3.0, 120)],
-        "thorough": [phase(16, 1.0, 1500),
+        "thorough": [phase(16, 3.0, 1500),
                      phase(1, 1.0, 300, flavour="release", streams=LADDER_STREAMS),
                      phase(1, 1.0, 300, flavour="dev", streams=LADDER_STREAMS)],
         "crash_is_violation": True,
@@ -242,7 +242,7 @@ PROPS = {
     },
     "C15": {
         "quick": [phase(16, 1.0, 60)],
-        "thorough": [phase(16, 1.0, 900)],
+        "thorough": [phase(16, 4.0, 900)],
         "exhaustive": True,
         "rule": ("exhaustive over the unit database: every unit x every one of its identifiers: get_unit(id) is that unit (pointer "
                  "equality); '<x><id>' (Zinc) and {\"_kind\":\"number\",\"val\":x,\"unit\":id} (Hayson) decode to that unit and the exact "
@@ -257,7 +257,7 @@ PROPS = {
     },
     "C16": {
         "quick": [phase(16, 1.0, 60)],
-        "thorough": [phase(16, 1.0, 900)],
+        "thorough": [phase(16, 4.0, 900)],
         "exhaustive": True,
         "rule": ("exhaustive over all ordered pairs of database units (443^2 = 196,249) x 5 magnitudes: convert_to is Ok iff the dimension "
                  "vectors are equal (both absent counts as equal; both byte units), equals (x*sa+oa-ob)/sb recomputed by the harness to "
@@ -272,7 +272,7 @@ PROPS = {
     },
     "C13": {
         "quick": [phase(16, 2.0, 120)],
-        "thorough": [phase(16, 1.0, 1500)],
+        "thorough": [phase(16, 4.0, 1500)],
         "exhaustive": True,
         "rule": ("(a) exhaustive over the shipped Project Haystack defs (tests/defs/defs.zinc): for every symbol supertypes_of, all_supertypes_of, "
                  "subtypes_of, all_subtypes_of, inheritance, choices_for, conjuncts_defs, has/has_subtype, fits_marker/val/choice/entity, "
@@ -288,7 +288,7 @@ PROPS = {
     },
     "C14": {
         "quick": [phase(8, 12.0, 90)],
-        "thorough": [phase(16, 1.0, 1500),
+        "thorough": [phase(16, 3.0, 1500),
                      phase(4, 0.15, 1200, flavour="tsan", streams=["schedule"]),
                      phase(16, 0.002, 2400, flavour="miri", streams=["schedule"])],
         "crash_is_violation": True,
@@ -330,7 +330,7 @@ PROPS = {
     },
     "C11": {
         "quick": [phase(16, 2.0, 120)],
-        "thorough": [phase(16, 1.0, 1800)],
+        "thorough": [phase(16, 3.0, 1800)],
         "rule": ("(1) fixed point: for every text a decoder accepts - grammar-generated Zinc with random spellings, the shipped corpus "
                  "files whole and in slices, accepted mutants of both, the library's Hayson for generated values and accepted mutants of "
                  "it, benches/json/points.json - decode, encode, decode again and compare the two decoded values in the strict model; "
@@ -347,7 +347,7 @@ PROPS = {
     },
     "C20": {
         "quick": [phase(16, 4.0, 120)],
-        "thorough": [phase(16, 1.0, 900)],
+        "thorough": [phase(16, 6.0, 900)],
         "rule": ("(a) precedence, complete: all 2^8 presence subsets of dis, disMacro, disKey, name, def, tag, navName, id x 12 value-kind "
                  "variants (Str, empty Str, Ref with/without dis, Number, Bool, Marker, Uri, Symbol, Null, List, random Unicode), with and "
                  "without a default, through dict_to_dis (with a localisation table) and Dict::dis(); (b) macro patterns: concatenations of "
@@ -362,7 +362,7 @@ PROPS = {
     },
     "C05": {
         "quick": [phase(16, 4.0, 120)],
-        "thorough": [phase(16, 1.0, 1500)],
+        "thorough": [phase(16, 6.0, 1500)],
         "rule": ("cases = the C01 generator's model values; (A) the spec-derived Hayson reference writer (harness/src/refjson.rs) writes a "
                  "document with members of every object in random order (incl. _kind anywhere), '_kind':'dict' present/absent, grid meta "
                  "absent / {} / with ver, column meta absent/present, tz present/absent for UTC, 'Z' vs '+00:00', unit-less numbers plain or "
@@ -380,7 +380,7 @@ PROPS = {
     },
     "C17": {
         "quick": [phase(16, 4.0, 120)],
-        "thorough": [phase(16, 1.0, 1500)],
+        "thorough": [phase(16, 6.0, 1500)],
         "crash_is_violation": True,
         "rule": ("cases = random histories of C API calls (quick 16x130 histories of 60 calls, thorough 16x1250 of 200) over a pool of "
                  "handles, every extern fn: make/is/get for every kind, push/get/set/remove/len on lists, insert/get/remove/keys/len on "
